@@ -7,83 +7,83 @@ ROOT = os.path.dirname(os.path.dirname(os.path.abspath(__file__)))
 # id -> (technique, level text, level note, design ref)
 CLAIMS = {
     "C01": ("property-based round-trip testing (rapid) + bounded-exhaustive tree enumeration + native coverage-guided fuzzing, oracle = independent RESP2 codec",
-            "Generated-input search: every value tree of a small alphabet/arity/depth is enumerated and tens of thousands of random trees (all byte values, bulks to 64KiB, deep nesting) and constructor arguments are pushed through four round-trip relations against an independent strict codec. A fifth relation demands that serialization is a function of the value (serialized twice, and after its arrays have been read through their cursors). Exploration is the right level: the domain is infinite, the relations are cheap and exact.",
+            "Generated-input search: every value tree of a small alphabet/arity/depth is enumerated and tens of thousands of random trees (all byte values, bulks to 64KiB, deep nesting) and constructor arguments are pushed through four round-trip relations against an independent strict codec. The bytes a serialization returns must stay unchanged when another value is serialized, scalars built by struct literal or re-typed after construction must serialize like constructor-built ones, and a fifth relation demands that serialization is a function of the value (serialized twice, and after its arrays have been read through their cursors). Exploration is the right level: the domain is infinite, the relations are cheap and exact.",
             "Trusts the harness's own codec (internal/resp, written from the RESP2 specification, self-tested) and Go's strconv for the float oracle.",
             "DESIGN.md 4/C01"),
     "C02": ("property-based testing (rapid) over value sequences x read partitions (all 2-way splits, 1-byte reads, biased k-way), oracle = exact values + exact consumed offsets via a counting chunk reader; native fuzzing of (stream, partition)",
             "Generated-input search over (stream, chunking) pairs with an exact oracle: the i-th value and the number of bytes consumed after it are known from the independent encoder. Every 2-way split of short streams is enumerated, longer streams are split at every length-prefix/CR-LF position; a second generator sends pipelined ECHO requests with payloads around 4 KiB/8 KiB/64 KiB through the server's own connection path in generated chunkings and requires every reply to be the payload sent. Exploration because streams and partitions are unbounded.",
-            "The chunk reader models a TCP connection (one chunk per Read, never (0,nil), (0,EOF) only at the end); and, in a third of the cases, the last bytes delivered together with io.EOF as crypto/tls does). Trusts internal/resp.",
+            "The chunk reader models a TCP connection (one chunk per Read, never (0,nil), (0,EOF) only at the end); and, in a third of the cases, the last bytes delivered together with io.EOF as crypto/tls does). A further sub-check drives ONE parser through tens of thousands of small valid values (lengths in periodic and pseudo-random order, 1.4 million array elements in total, a thousand null arrays, large arrays nested in large arrays): state a parser accumulates must not change what it returns. Trusts internal/resp.",
             "DESIGN.md 4/C02"),
     "C06": ("mutation-based and grammar-aware fuzzing (rapid-driven structure-aware mutators + native coverage-guided go test -fuzz), oracle = no panic / no absent element / read-count bound, allocation bombs judged by process survival in a child under RLIMIT_AS",
-            "Generated hostile inputs (mutated valid streams, boundary lengths and counts, nesting to 2^18 levels) are fed to Parser.Next() until end or error; a panic, an array with an absent element, a read count beyond 10^6+1000*len, or the death of a memory-limited child process is a violation. Exploration: the input space is all byte strings up to 1 MiB.",
+            "Generated hostile inputs (mutated valid streams, boundary lengths and counts, nesting to 2^18 levels) are fed to Parser.Next() until end or error; a panic, an array with an absent element, a read count beyond 10^6+1000*len, or the death of a memory-limited child process is a violation. Added: transports that deliver the last bytes together with io.EOF, bulk strings of a large declared length that stop early, lines of tens of thousands of bytes without terminator, long streams of small values through one parser, large arrays nested in large arrays. Exploration: the input space is all byte strings up to 1 MiB.",
             "RLIMIT_AS=8GiB stands for 'a <=1MiB input must not need more than 8GiB'; the step bound is a count of Read calls, not a clock. Native fuzzing cannot be seeded; its saved input is the reproducible unit.",
             "DESIGN.md 4/C06"),
     "C05": ("grammar-based property testing (rapid): well-formed requests generated from an independent command grammar, oracle = recorded handler calls vs the grammar's expected calls + reply pass-through",
-            "For each of the 67 registered commands hundreds of generated well-formed vectors (all option combinations/orders, binary strings, boundary numbers, duplicate keys, random letter case, optional SELECT) are served through the real connection loop on a scripted connection with a recording handler; the call log must equal the grammar's expectation and the reply must be the handler's result. Unknown names and application executors are covered by two more generators. Exploration: argument space is unbounded.",
+            "For each of the 67 registered commands hundreds of generated well-formed vectors (all option combinations/orders, binary strings, boundary numbers, duplicate keys, random letter case, optional SELECT) are served through the real connection loop on a scripted connection with a recording handler; each also with a handler that returns an error (with or without a message) and with a tracer installed; commands over 2..40 keys with a slow, failing handler must make no handler call after they are answered; the call log must equal the grammar's expectation and the reply must be the handler's result. Unknown names and application executors are covered by two more generators. Exploration: argument space is unbounded.",
             "The grammar (internal/cmdspec) was written from the Redis command reference and redis/handler.go, not from the executors; combinations whose expected handler arguments are not defined by the interface (ZRANGE BYSCORE REV, KEEPTTL+EX, ZADD NX+GT) are not generated. EXPIRE's instant is checked as an interval bracketed by two clock readings of the harness.",
             "DESIGN.md 4/C05, Appendix A"),
     "C03": ("property-based testing (rapid) over request pipelines x chunkings x handler scripts on a scripted in-memory connection; oracle = strict frame decoder + reply-before-blocking invariant at every transport read + watchdog",
-            "Generated pipelines (every registered command with valid, invalid, missing, surplus and option arguments, unknown names, QUIT anywhere) are delivered in generated chunkings through the real connection loop; the harness owns every Read, so at each moment the server asks for undelivered bytes it checks that every fully delivered request has been answered, then that the output is exactly one frame per request in order, and finally that a following connection to the same server is still served. Handler scripts include errors and results that are neither message nor error; some requests carry arguments of 4 KiB..128 KiB; a child-process pass sends extreme count-like arguments to the example server, each of which must be answered within 10 s. Exploration: pipelines and chunkings are unbounded.",
+            "Generated pipelines (every registered command with valid, invalid, missing, surplus and option arguments, unknown names, QUIT anywhere) are delivered in generated chunkings through the real connection loop; scripted handler errors include well-known error values (io.EOF, net.ErrClosed, timeouts), message+error and unserializable messages; requests of up to 2049 elements; two connections on real listeners idle for 12 s between requests; one connection carrying more than a gigabyte; a peer served while another connection reads late; the harness owns every Read, so at each moment the server asks for undelivered bytes it checks that every fully delivered request has been answered, then that the output is exactly one frame per request in order, and finally that a following connection to the same server is still served. Handler scripts include errors and results that are neither message nor error; some requests carry arguments of 4 KiB..128 KiB; a child-process pass sends extreme count-like arguments to the example server, each of which must be answered within 10 s. Exploration: pipelines and chunkings are unbounded.",
             "Liveness is approximated: a stall verdict needs the loop not to return within 30s AND two goroutine dumps showing the connection goroutine busy outside the transport. Count-like arguments are bounded to 10^6 in-process.",
             "DESIGN.md 4/C03"),
     "C04": ("property-based testing (rapid) + native fuzzing: hostile client streams x scripted handler results, oracle = independent strict RESP2 decoder over the whole output",
-            "Client streams of every RESP type with CR/LF and forged frames in every client-controlled position, and handler results of every shape (arbitrary trees, nil, errors with arbitrary text), against both a scripted handler and the bundled example store; everything written must decode into exactly one canonical frame per request; scripted results are applied to every handler call, including those made on behalf of composed commands. Exploration over an unbounded input space.",
+            "Client streams of every RESP type with CR/LF and forged frames in every client-controlled position, and handler results of every shape (arbitrary trees, nil, errors with arbitrary text), against both a scripted handler and the bundled example store; bytes that are not a request may follow the stream (whatever is written in answer must be frames too); everything written must decode into exactly one canonical frame per request; scripted results are applied to every handler call, including those made on behalf of composed commands. Exploration over an unbounded input space.",
             "Integer replies are generated with valid decimal payloads only (a handler building ':abc' by hand is outside 'valid RESP value'); QUIT appears only in the big-replies generator (everything behind it is unanswered). Further generators: pipelines with replies of several KiB; a slow reader whose reply writes are held back while a peer is served (the bytes handed to Write are snapshotted and compared at delivery; write deadlines are honoured by the scripted connection); handler results the constructors allow but no decoder yields (array message without array, unknown type, nil element also behind 8 KiB).",
             "DESIGN.md 4/C04"),
     "C10": ("complete enumeration of a table of ill-formed request shapes derived from a positional command schema + random variation (rapid); oracle = error reply, zero handler calls attributed to the request, probe request answered normally",
-            "Every ill-formed shape the property lists is generated systematically for every command (omitted positions, nulls, non-numeric/overflowing/fractional tokens, dangling halves, exclusive SET options, non-positive expiries) and each is followed by a probe request; the enumeration of the table is complete, letter case and argument contents are randomised on top.",
+            "Every ill-formed shape the property lists is generated systematically for every command (omitted positions, nulls, non-numeric/overflowing/fractional tokens, dangling halves, exclusive SET options, non-positive expiries) and each is followed by a probe request, and each is repeated on an authenticated connection of a password-protected server; the enumeration of the table is complete, letter case and argument contents are randomised on top.",
             "Handler calls are attributed to requests by the number of complete reply frames on the connection at call time. Surplus arguments and negative counts are not in the property's list and are not asserted.",
             "DESIGN.md 4/C10"),
     "C11": ("exhaustive crash-point enumeration per generated pipeline (every byte offset x half/full close), differential oracle against the same server fed only the complete requests",
-            "For each generated pipeline of well-formed requests the stream is cut at every byte offset, with half-close, full close after the last byte, and a peer that is already gone (every reply write fails); handler calls and replies must equal those produced by the completely delivered requests alone, and the loop must return, close the connection and leave the registry - also when the transport's Close reports an error and when the server object is in its second run. The cut points of a pipeline are enumerated completely; pipelines are sampled.",
+            "For each generated pipeline of well-formed requests the stream is cut at every byte offset, with half-close, full close after the last byte, and a peer that is already gone (every reply write fails); handler calls and replies must equal those produced by the completely delivered requests alone, and the loop must return, close the connection and leave the registry - also when the transport's Close reports an error, when the server object is in its second run and when the end of the stream arrives together with the last bytes; plus a real TCP client through the accept loop with 24 MiB of replies read after its half-close, a 70 KiB value of CR LF lines cut behind its line ends, and inline commands cut at every offset. The cut points of a pipeline are enumerated completely; pipelines are sampled.",
             "VerifServeConn is synchronous, so its return is the end of the connection goroutine's work. Order of handler calls inside one request (Go map iteration in MSET/HMSET) is not compared.",
             "DESIGN.md 4/C11"),
     "C20": ("property-based testing (rapid) over pipelines x cut points x auth state with a recording tracer double; oracle = well-nestedness invariants over a sequence-numbered event log",
-            "The C03/C10 pipelines, optionally cut anywhere, optionally with reply writes failing after N bytes and optionally under a required password, are served with a tracer double whose span contexts are go-tracing's own stack implementation; requests that carry no command are interspersed, and a separate generator lets the SERVER end the connection (Stop while it waits or is inside a handler operation); every span must be finished exactly once, nested in its parent, roots and siblings must not overlap, and every write/handler call must lie in exactly one root with at most one reply per root.",
+            "The C03/C10 pipelines, optionally cut anywhere, optionally with reply writes failing after N bytes and optionally under a required password, are served with a tracer double whose span contexts are go-tracing's own stack implementation; requests that carry no command are interspersed, the tracer is replaced while a connection is idle, two connections contend for the command lock, clients on real sockets are stopped while idle, and a separate generator lets the SERVER end the connection (Stop while it waits or is inside a handler operation); every span must be finished exactly once, nested in its parent, roots and siblings must not overlap, and every write/handler call must lie in exactly one root with at most one reply per root.",
             "The tracer double stands for any tracer built on go-tracing's common span-context stack (as the bundled OpenTelemetry/OpenTracing adapters are).",
             "DESIGN.md 4/C20"),
     "C12": ("model-based property testing (rapid) + exhaustive index tables: command programs against a reference store used as handler, oracle = executable Redis model (replies and final store state)",
-            "The handler is a reference store whose primitives behave like Redis; the framework derives the commands of the property from them. GETRANGE/SUBSTR, ZREVRANGE and ZREVRANGEBYSCORE index/bound tables are enumerated completely inside the stated bounds, random programs mix setup and derived commands; every reply and the final store contents must equal an independent command-level Redis model.",
+            "The handler is a reference store whose primitives behave like Redis; the framework derives the commands of the property from them. GETRANGE/SUBSTR, ZREVRANGE and ZREVRANGEBYSCORE index/bound tables are enumerated completely inside the stated bounds, random programs mix setup and derived commands; command names in every spelling, counters in exotic spellings, CONFIG programs over the server's own parameter names, runs of unsupported requests; every reply and the final store contents must equal an independent command-level Redis model.",
             "The model (internal/model) is written from the Redis documentation; integer forms Redis rejects but strconv accepts ('+5','007') are treated as integers (contested, not asserted); CONFIG GET of never-set parameters may be absent or empty.",
             "DESIGN.md 4/C12"),
     "C18": ("model-based property testing (rapid) + bounded-exhaustive program enumeration per data type against the bundled example store, oracle = executable Redis model",
-            "All programs of length <=3 over ~20 concrete commands per data type are enumerated, and random programs up to 40 commands revisit a small pool of keys, members and binary values; after each program KEYS *, TYPE/EXISTS and a full read of every pool key are appended. Every reply must equal the model's under stated comparison rules (unordered replies as multisets, score ties permutable).",
+            "All programs of length <=3 over ~20 concrete commands per data type are enumerated, and random programs up to 40 commands revisit a small pool of keys, members and binary values; after each program KEYS *, TYPE/EXISTS and a full read of every pool key are appended. Every reply must equal the model's under stated comparison rules (unordered replies as multisets, score ties permutable). Key names with punctuation, lists of hundreds of elements, sorted sets of dozens of members re-scored, LIMIT counts near 2^63, integers in non-canonical spellings.",
             "Each key is used with one data type, no expiry, ZADD without flags, LPOP/RPOP without count or with count>=2 (the handler interface cannot tell 'LPOP k' from 'LPOP k 1'), finite scores.",
             "DESIGN.md 4/C18"),
     "C17": ("complete enumeration over a 9-symbol alphabet + property-based testing (rapid) of longer patterns, oracle = direct recursive glob matcher; differential KEYS vs SCAN MATCH at server level",
-            "Every pattern up to length 3 (thorough: 5) is compiled and matched against every key up to length 4 (thorough: 5) over {a,b,*,?,.,+,(,|,$} and compared with a reference matcher; longer random patterns add ) ^ { } space newline and non-ASCII; a populated example store must answer KEYS with exactly the reference-selected keys and SCAN MATCH with the same set - completely for patterns up to length 3 against a store holding every key up to length 2 over {a,b,*,?}, and with key spaces of up to 4099 keys.",
+            "Every pattern up to length 3 (thorough: 5) is compiled and matched against every key up to length 4 (thorough: 5) over {a,b,*,?,.,+,(,|,$} and compared with a reference matcher; longer random patterns add ) ^ { } space newline and non-ASCII; a populated example store must answer KEYS with exactly the reference-selected keys and SCAN MATCH with the same set - completely for patterns up to length 3 against a store holding every key up to length 2 over {a,b,*,?}, and {a,e-acute,*,?}, with key spaces of up to 4099 keys and patterns of 65 KiB and more; byte-string patterns and keys (lone high bytes, escapes, classes) must compile without error or panic.",
             "'[', ']' and backslash are not generated (Redis glob syntax the property does not mention); '?' is compared as one character (rune).",
             "DESIGN.md 4/C17"),
     "C08": ("bounded-exhaustive sequence enumeration + stateful property-based testing (rapid) over 1..3 scripted connections; oracle = per-connection authorization model over handler calls and replies",
-            "All request sequences up to length 3 over a 30-symbol alphabet built around the password (every listed AUTH candidate, one- and two-argument forms, non-AUTH commands) and all interleavings of two connections with two requests each are enumerated; longer random interleavings over up to 3 connections (plain or TLS) and 5 passwords follow; all sequences up to length 2 are repeated on a TLS connection. The harness owns the interleaving at request granularity, so every schedule is replayable.",
+            "All request sequences up to length 3 over a 30-symbol alphabet built around the password (every listed AUTH candidate, one- and two-argument forms, non-AUTH commands) and all interleavings of two connections with two requests each are enumerated; longer random interleavings over up to 3 connections (plain or TLS) and 5 passwords follow; all sequences up to length 2 are repeated on a TLS connection. Environments: a server that ran with another password and was restarted, steps issued while Stop is between its phases, Start called again on the running server; passwords ending in a line end. The harness owns the interleaving at request granularity, so every schedule is replayable.",
             "The server is configured through SetRequirePass + Start (port disabled), the genuine configuration path. AUTH '' P and AUTH default P may be accepted or refused (ambiguous in the property).",
             "DESIGN.md 4/C08"),
     "C13": ("systematic interleaving enumeration + stateful property-based testing (rapid) over 2..8 scripted connections; oracle = per-connection model of database/authorization/user data checked inside every handler call",
-            "Interleavings of SELECT/AUTH/data/REMEMBER scripts are generated at request granularity (all 20 interleavings of two 3-request scripts for a systematic set of script pairs, random interleavings of up to 8 connections); the recording handler reports conn.Database(), IsAuthrized() and the per-connection sync.Map token seen inside each call, which must match that connection's own history. Scripts also contain unusual SELECT indexes, CONFIG SET requirepass by a peer, any well-formed command of the grammar and every command the server has registered beyond the grammar; connections are plain or TLS; a separate scenario lets Stop arrive between the handler operations of a composed command.",
+            "Interleavings of SELECT/AUTH/data/REMEMBER scripts are generated at request granularity (all 20 interleavings of two 3-request scripts for a systematic set of script pairs, random interleavings of up to 8 connections); the recording handler reports conn.Database(), IsAuthrized() and the per-connection sync.Map token seen inside each call, which must match that connection's own history. Scripts also contain unusual SELECT indexes, CONFIG SET requirepass by a peer, any well-formed command of the grammar and every command the server has registered beyond the grammar; connections are plain or TLS; a separate scenario lets Stop arrive between the handler operations of a composed command. Cases also run with a tracer installed, with identical remote addresses, with runs of 15..40 failed AUTHs, and with an executor that drops the connection's user data.",
             "Request-granularity interleavings; true parallelism is exercised by C14/C16. The thorough tier additionally builds with -race.",
             "DESIGN.md 4/C13"),
     "C07": ("fault-injecting property-based testing (rapid) with an offender/witness pair on scripted connections + a child-process tier that judges process survival; oracle = no escaped panic, no stall, exact witness replies, process alive and accepting",
-            "Generated offender streams (boundary arguments for every numeric position incl. empty score bounds, grammar instances of every command, empty/null/nested/non-array frames, nesting around the depth limit, mutated frames, disconnects, an offender that stops reading so that the reply write blocks, an offender whose reply writes fail, an offender that reads late - its reply bytes are snapshotted when the write begins and compared at delivery) are interleaved request by request with a witness connection on the same server, against the example store and against a scripted handler with nil/wrong-shaped results; a fixed list of ~50 dangerous requests (allocation bombs, extreme counts, 8M-deep nesting, a concurrent same-hash burst) runs against the example server as a separate process under RLIMIT_AS whose wait status is the verdict.",
+            "Generated offender streams (boundary arguments for every numeric position incl. empty score bounds, grammar instances of every command, empty/null/nested/non-array frames, nesting around the depth limit, mutated frames, disconnects, an offender that stops reading so that the reply write blocks, an offender whose reply writes fail, an offender that reads late - its reply bytes are snapshotted when the write begins and compared at delivery) are interleaved request by request with a witness connection on the same server, against the example store and against a scripted handler with nil/wrong-shaped results; a fixed list of ~50 dangerous requests (allocation bombs, extreme counts, 8M-deep nesting, a concurrent same-hash burst) runs against the example server as a separate process under RLIMIT_AS whose wait status is the verdict (incl. KEYS with a pattern of 1.7 million wildcards). Added: clients on goroutines of their own (commands the framework composes from other commands against writers - nobody may stall) and 12000 badly ending connections on one server followed by a fresh client.",
             "A panic recovered in-process stands for a process abort (there is no recover in the server's loops). The concurrent burst depends on the scheduler. Whether a value comes back as status or bulk is not judged here (C04/C18).",
             "DESIGN.md 4/C07"),
     "C16": ("history-based property testing: generated concurrent workloads (harness-forced interleavings at handler-primitive granularity + uncontrolled goroutines), oracle = complete linearizability search (porcupine v1.3.0) against the sequential Redis model",
-            "Controlled mode uses a handler double that is not synchronized itself (its conditional Set reads and writes in two steps) and parks one client at each gate of its command (before Get, between Get and Set, inside SETNX/GETSET, ...) while another client's command is started, exhaustively for all ordered pairs of the nine operation kinds, plus random multi-round sequences; uncontrolled mode runs 2..8 clients on real goroutines against the reference store and the example store, including hammer plans in which all clients issue the same read-modify-write command on one key. Further modes: clients taking turns without overlap, a client whose reply is held back while two others work, connections that received an error reply before the contended command, DEL of several keys. Every recorded history (logical-clock invoke/return stamps) is checked for linearizability.",
+            "Controlled mode uses a handler double that is not synchronized itself (its conditional Set reads and writes in two steps) and parks one client at each gate of its command (before Get, between Get and Set, inside SETNX/GETSET, ...) while another client's command is started, exhaustively for all ordered pairs of the nine operation kinds, plus random multi-round sequences; uncontrolled mode runs 2..8 clients on real goroutines against the reference store and the example store, including hammer plans in which all clients issue the same read-modify-write command on one key. Further modes: clients taking turns without overlap, a client whose reply is held back while two others work, connections that received an error reply before the contended command, DEL of several keys, the nested request form, a second client connecting while the first is inside its command, and commands over many keys whose handler calls must all precede the reply. Every recorded history (logical-clock invoke/return stamps) is checked for linearizability.",
             "The recorded history is the reproducible unit (replay re-checks it); whether a forced interleaving materialises depends on a 3 ms scheduling aid that is never used as a verdict. Uncontrolled mode depends on the scheduler.",
             "DESIGN.md 4/C16"),
     "C15": ("schedule-enumerating property testing: lifecycle sequences x harness-owned schedules at instrumented points (turnstile), exhaustive for short sequences, rapid-drawn beyond; oracle = dial+PING after Start, bind probe / client EOF / registry / goroutine profile after Stop",
-            "Lifecycle call sequences run against real loopback listeners while a turnstile installed at the verif schedule points parks accept loops at their accept-error exit or at the very end of their goroutine, a connection between Accept and registration, connection goroutines before serving (released after the call, after the next Start, after the next Start once new clients have connected, or at the end), Stop between its phases and Start after opening the listeners; all hold combinations are enumerated for sequences of up to three calls, longer sequences with client churn are drawn from rapid. The controller is event-driven: it waits for the arrivals an action causally guarantees, not for sleeps. A second evaluator without schedule control mixes the calls (each under a time limit) with run-time reconfiguration of the ports, an occupied TLS port and a missing certificate: a Start that returns nil must serve every enabled port, after Stop no port the server ever listened on may be held (garbage collection off, so that a finalizer cannot hide a lost listener).",
+            "Lifecycle call sequences run against real loopback listeners while a turnstile installed at the verif schedule points parks accept loops at their accept-error exit or at the very end of their goroutine, a connection between Accept and registration, connection goroutines before serving (released after the call, after the next Start, after the next Start once new clients have connected, or at the end), Stop between its phases and Start after opening the listeners; all hold combinations are enumerated for sequences of up to three calls, longer sequences with client churn are drawn from rapid. The controller is event-driven: it waits for the arrivals an action causally guarantees, not for sleeps. A second evaluator without schedule control mixes the calls (each under a time limit) with run-time reconfiguration of the ports, an occupied TLS port and a missing certificate: a Start that returns nil must serve every enabled port, after Stop no port the server ever listened on may be held (garbage collection off, so that a finalizer cannot hide a lost listener); also Start on a running server, dozens of connected clients at Stop, a tracer whose Start fails, 1100 failing handshakes before a Restart, a lifecycle call from inside a command.",
             "Port release, client-side closure and registry emptiness are judged at Stop's return with parked goroutines still parked; 'no server goroutine remains' after a 15 s settle budget (a goroutine told to end but not yet scheduled is not a leak). If Stop does not wait for parked loop exits they are released after the next Start (60 ms probe - a scheduling aid, never a verdict).",
             "DESIGN.md 4/C15"),
     "C09": ("complete enumeration of a finite configuration x credential x fault x order product on real loopback TCP/TLS with run-time generated certificates (+ rapid-drawn bursts in thorough); oracle = handler calls per client identity, disconnect of rejected clients, survivors still served",
-            "All 192 combinations of server configuration, client credential, handshake fault and order are run against a started server; handler calls are attributed to clients by unique keys and may only stem from clients whose chain verifies and whose leaf carries the configured name (after AUTH where a password is set); after each faulty client, and while a staller is still connected, a valid TLS client and a plain client must be served. Added: a rejected client's second visit with a TLS session cache; bursts of 70 failing handshakes on one server; the configured CA replaced at run time followed by Restart/Stop+Start; and a child-process tier in which generated handshake junk (as first bytes or after a well-formed ClientHello) must leave the server process alive and serving.",
+            "All 192 combinations of server configuration, client credential, handshake fault and order are run against a started server; handler calls are attributed to clients by unique keys and may only stem from clients whose chain verifies and whose leaf carries the configured name (after AUTH where a password is set); after each faulty client, and while a staller is still connected, a valid TLS client and a plain client must be served. Added: a rejected client's second visit with a TLS session cache; bursts of 70 failing handshakes on one server; the configured CA replaced at run time followed by Restart/Stop+Start; credentials at the edge (the rule's name in another letter case, a certificate expired seconds ago or not yet valid), the password changed at run time under a name rule, 1100 failing handshakes on one server, a server process whose host trust store contains the foreign CA; and a child-process tier in which generated handshake junk (as first bytes or after a well-formed ClientHello) must leave the server process alive and serving.",
             "Key material comes from crypto/rand (affects no decision). The stall verdict needs a 5 s handshake timeout of the valid client AND a goroutine dump showing the TLS accept loop inside Handshake. On the plain port with rule+password only 'a reply frame came back' is asserted.",
             "DESIGN.md 4/C09"),
     "C19": ("fault-sequence property testing (rapid): deterministic endings on scripted connections + churn plans on real loopback TCP/TLS; oracle = per-connection closure/registry checks and resource counters (server goroutines, registry size, /proc/self/fd) returning to baseline",
-            "Every ending mode the property lists is injected - exact cut offsets, write failures and rejected certificates on scripted connections; FIN, RST, QUIT, malformed frames, clients that keep their end open after the server ended the connection, peers that stop reading (and stay while the others must be released), failed TLS handshakes, rejected certificates, clients leaving exactly when Stop sweeps, TLS handshakes still pending at Stop, and Server.Stop on real sockets with 1..32 connections in flight - and after each plan the goroutine, registry and descriptor counts must settle back to the values sampled before it. A third of the plans ending with Stop reconfigure a listening port first (Stop under a time limit); one fixed plan accumulates 90 (thorough 600) failing TLS handshakes on one server.",
+            "Every ending mode the property lists is injected - exact cut offsets, write failures and rejected certificates on scripted connections; FIN, RST, QUIT, malformed frames, clients that keep their end open after the server ended the connection, peers that stop reading (and stay while the others must be released), failed TLS handshakes, rejected certificates, clients leaving exactly when Stop sweeps, TLS handshakes still pending at Stop, and Server.Stop on real sockets with 1..32 connections in flight - and after each plan the goroutine, registry and descriptor counts must settle back to the values sampled before it. A third of the plans ending with Stop reconfigure a listening port first (Stop under a time limit); one fixed plan accumulates 90 (thorough 600) failing TLS handshakes on one server; the server stopped or restarted from inside a command; a reply still unread when Stop is called. Every time-based verdict of a churn plan is confirmed by repeating the plan with tripled budgets.",
             "The 15 s settle budget bounds the wait for in-flight kernel events; what is judged is the final state, with the leaked goroutines' stacks / descriptor targets attached.",
             "DESIGN.md 4/C19"),
     "C14": ("randomized concurrent workload generation (rapid) executed under the Go race detector in a child process; oracle = race reports whose racing access is in the framework, reduced to unordered access-site pairs",
-            "Workload plans (2..32 clients on the plain port, the TLS port or in-memory connections through the real loop, over every command family with churn, AUTH, requests that carry no command, CONFIG SET/GET on shared parameters including requirepass, SetRequirePass+Restart, registry enumeration, Stop/Start/Restart, yields and delays, plain or TLS listeners) are drawn from rapid and executed against a started server in a -race build; every report with a framework access is a violation, as is a concurrent-map abort.",
+            "Workload plans (2..32 clients on the plain port, the TLS port or in-memory connections through the real loop, over every command family with churn, AUTH, requests that carry no command, CONFIG SET/GET on shared parameters including requirepass, SetRequirePass+Restart, CONFIG SET of the TLS file parameters and of the parameter names real Redis servers know, in-memory connections whose Close reports an error, themed plans (auth, config, tls-config, no-command, churn), registry enumeration, Stop/Start/Restart, yields and delays, plain or TLS listeners) are drawn from rapid and executed against a started server in a -race build; every report with a framework access is a violation, as is a concurrent-map abort.",
             "The race detector only sees races that occur in an execution: detection depends on the interleavings that happen - the weakest claim of the set. The handler double is race-free, so reports concern the framework. Enumeration reads only immutable connection attributes.",
             "DESIGN.md 4/C14"),
 }
